@@ -238,6 +238,31 @@ func (g *G) Calls(n int, chunkSize int64) []wl.Call {
 	return append(calls, wl.Call{Op: "close"})
 }
 
+// RichCalls draws a call sequence that is guaranteed to contain at least two schemas, three channels, two
+// attachments, two metadata records and messages on every channel, in a seeded interleaving (the flag matrix is run
+// on it so that every per-kind code path sees more than one record of its kind).
+func (g *G) RichCalls(n int, chunkSize int64) []wl.Call {
+	for {
+		calls := g.Calls(n, chunkSize)
+		cnt := map[string]int{}
+		chans := map[uint16]bool{}
+		msgCh := map[uint16]bool{}
+		for _, c := range calls {
+			cnt[c.Op]++
+			if c.Op == "channel" {
+				chans[c.ID] = true
+			}
+			if c.Op == "message" {
+				msgCh[c.Ch] = true
+			}
+		}
+		if cnt["attachment"] >= 2 && cnt["metadata"] >= 2 && cnt["schema"] >= 2 && len(chans) >= 3 && len(msgCh) >= 2 && cnt["message"] >= 6 {
+			return calls
+		}
+		n++
+	}
+}
+
 // Workload draws a configuration and a call sequence.
 func (g *G) Workload(id string, n int) wl.Workload {
 	c := g.Cfg()
